@@ -5,8 +5,8 @@ import random
 
 class Prop(PoolProp):
     real_scenarios = ("big_results", "factory_big_results", "none_inputs", "late_items_flow_control", "equal_items", "exception_values",
-                      "two_pools_interleaved", "from_thread")
-    real_scenarios_quick = ("big_results", "none_inputs", "equal_items", "exception_values", "two_pools_interleaved", "from_thread")
+                      "two_pools_interleaved", "from_thread", "long_reorder")
+    real_scenarios_quick = ("big_results", "none_inputs", "equal_items", "exception_values", "two_pools_interleaved", "from_thread", "long_reorder")
     pid = "C01"
     focus = "result"
     rule = ("configurations drawn from workers 1-4, 1-2 calls of 0-8 items, chunk size 1-3, ordered/unordered, plain/factory "
